@@ -114,6 +114,17 @@ class VLoop(asyncio.BaseEventLoop):
         self.steps += n
         return n
 
+    def create_task(self, coro, *, name=None, context=None):
+        # creation index: used to give `asyncio.TaskGroup` (which keeps its tasks in a *set*, i.e.
+        # in address order) a deterministic order when it cancels them - see hv.boot
+        task = super().create_task(coro, name=name, context=context)
+        self._task_counter = getattr(self, "_task_counter", 0) + 1
+        try:
+            task._hv_seq = self._task_counter  # type: ignore[attr-defined]
+        except AttributeError:  # pragma: no cover - C tasks accept attributes; be safe anyway
+            pass
+        return task
+
     def run_iteration(self) -> int:
         """Run exactly one loop iteration: the callbacks that are ready right now, not the ones
         they schedule (asyncio's `_run_once` takes `len(_ready)` up front)."""
